@@ -619,9 +619,11 @@ def sorter_split(facts, res):
     ffirst, fnb, fpfirst, fpnb = (setter_field(facts, gp, nm) for nm in ("setFirstCell", "setNbCells", "setFirstParticle", "setNbParticles"))
     S = sympy.Symbol("<param0>", integer=True, nonnegative=True)
     N = sympy.Symbol("<*this.getNbLeaves()>", integer=True, nonnegative=True)
-    loops = [f for f in walk(fm.body) if f.get("k") == "ForStmt"]
+    # the group loop: the counted loop in which a group's first leaf is set (other loops - e.g. the particle count written as a for - do not matter here)
+    loops = [f for f in walk(fm.body) if f.get("k") == "ForStmt" and any(x.get("k") in ("CallExpr", "CXXMemberCallExpr") and tbf.callee_name(x) == "setFirstCell" for x in walk(f))]
+    loops = [f for f in loops if not any(g is not f and any(y is g for y in walk(f)) for g in loops)]      # innermost such loop
     if len(loops) != 1:
-        raise AnalysisBroken("%s: %d counted loops (1 confirmed by reading)" % (fn["qname"], len(loops)))
+        raise AnalysisBroken("%s: %d group loops (1 confirmed by reading)" % (fn["qname"], len(loops)))
     init, cond, inc, _b = loops[0]["c"]
     gvar = [v for v in kids(init) if v.get("k") == "VarDecl"][0]
     g = sympy.Symbol("g", integer=True, nonnegative=True)
